@@ -5,6 +5,10 @@
 
 package pcapgo
 
+// Finite input (C15 termination): the capture stream delivers fewer than 2^62 bytes in total. Every reader loop
+// consumes at least 4 bytes per iteration, so streamBound() - ghost(consumed) is its measure.
+//@ spec streamBound() int = 4611686018427387904
+
 // ---- assumed contracts of the buffered reader / writer the capture-file code sits on ------------------------
 // ghost(consumed): bytes taken from the underlying stream; ghost(wrote): bytes handed to the underlying writer.
 
@@ -12,6 +16,7 @@ package pcapgo
 //@   ensures 0 <= result0 && result0 <= len(p)
 //@   ensures result1 == nil && len(p) > 0 ==> result0 > 0
 //@   ensures ghost(consumed) == old(ghost(consumed)) + result0
+//@   ensures ghost(consumed) <= streamBound()
 //@   modifies ghost:consumed contents(p)
 
 //@ extern (b *bufio.Reader) Discard(n int) (int, error)
@@ -19,6 +24,14 @@ package pcapgo
 //@   ensures n >= 0 ==> 0 <= result0 && result0 <= n
 //@   ensures result1 == nil ==> result0 == n
 //@   ensures ghost(consumed) == old(ghost(consumed)) + result0
+//@   ensures ghost(consumed) <= streamBound()
+//@   modifies ghost:consumed
+
+// ReadBytes returns the bytes up to and including the delimiter; without an error there is at least the delimiter.
+//@ extern (b *bufio.Reader) ReadBytes(delim byte) ([]byte, error)
+//@   ensures result1 == nil ==> len(result0) >= 1
+//@   ensures ghost(consumed) == old(ghost(consumed)) + len(result0)
+//@   ensures ghost(consumed) <= streamBound()
 //@   modifies ghost:consumed
 
 //@ extern (b *bufio.Writer) Write(p []byte) (int, error)
@@ -35,6 +48,8 @@ package pcapgo
 //@   ensures result1 == nil ==> result0 == len(buffer)
 //@   ensures result0 <= len(buffer)
 //@   ensures ghost(consumed) == old(ghost(consumed)) + result0
+//@   ensures result1 == nil && len(buffer) > 0 ==> ghost(consumed) <= streamBound()
+//@   loop 0: invariant n > 0 ==> ghost(consumed) <= streamBound()
 //@   loop 0: invariant 0 <= n && n <= len(buffer) && ghost(consumed) == old(ghost(consumed)) + n
 //@   loop 0: decreases len(buffer) - n
 
@@ -42,11 +57,14 @@ package pcapgo
 //@   props C14 C15
 //@   ensures result == nil ==> ghost(consumed) == old(ghost(consumed)) + length && length >= 0
 //@   ensures result == nil ==> r.currentBlock.length == wrap32(old(r.currentBlock.length) - length)
+//@   ensures result == nil ==> ghost(consumed) <= streamBound()
 
 // An option occupies 4 + length + padding-to-a-multiple-of-4 bytes of the block; the value returned for it has
 // exactly the announced length.
 //@ func (r *NgReader) readOption() error
 //@   props C14 C15
+//@   ensures result == nil && old(r.currentBlock.length) == 4 ==> r.currentOption.code == 0
+//@   ensures result == nil && old(r.currentBlock.length) != 4 ==> ghost(consumed) >= old(ghost(consumed)) + 4 && ghost(consumed) <= streamBound()
 //@   ensures result == nil && old(r.currentBlock.length) == 4 ==> ghost(consumed) == old(ghost(consumed))
 //@   ensures result == nil && old(r.currentBlock.length) != 4 && r.currentOption.code == 0 ==> ghost(consumed) == old(ghost(consumed)) + 4
 //@   ensures result == nil && old(r.currentBlock.length) != 4 && r.currentOption.code != 0 && (r.bigEndian ? be16(r.buf, 2) : le16(r.buf, 2)) != 0 ==> len(r.currentOption.value) == (r.bigEndian ? be16(r.buf, 2) : le16(r.buf, 2))
@@ -71,10 +89,14 @@ package pcapgo
 // declared snap length (which bounds the allocation made for it).
 //@ func (r *Reader) ReadPacketData() (data []byte, ci gopacket.CaptureInfo, err error)
 //@   props C14 C15
+//@   requires r.byteOrder != nil
+//@   ensures r.byteOrder != nil
 //@   ensures err == nil ==> len(data) == ci.CaptureLength && ci.CaptureLength <= ci.Length && ci.CaptureLength <= r.snaplen && 0 <= ci.CaptureLength
 
 //@ func (r *Reader) ZeroCopyReadPacketData() (data []byte, ci gopacket.CaptureInfo, err error)
 //@   props C14 C15
+//@   requires r.byteOrder != nil
+//@   ensures r.byteOrder != nil
 //@   ensures err == nil ==> len(data) == ci.CaptureLength && ci.CaptureLength <= ci.Length && ci.CaptureLength <= r.snaplen && 0 <= ci.CaptureLength
 
 // ---- snoop reader (C15): the allocation for a record is bounded and never negative ---------------------------------
